@@ -30,10 +30,15 @@
 (*   - a command whose message is longer than Max is refused with a BAD and  *)
 (*     nothing of it is relayed;                                             *)
 (*   - an empty line denotes no command (a BAD is allowed, event "b").       *)
+(*   - a synchronising announcement inside the discarded remainder of a      *)
+(*     command that was already refused ends that command: no "+" is sent    *)
+(*     for a refused command, so a conforming client sends neither the data  *)
+(*     nor anything more of it (RFC 3501 7.5: it MUST wait for the "+"); the  *)
+(*     octets that follow are the next command;                               *)
 (* Streams in which the outcome depends on a choice the property leaves      *)
 (* open (a synchronising literal inside a command that is refused for its    *)
-(* total size, or inside the discarded remainder of a refused command) are   *)
-(* outside the domain: Run marks them `amb` and no verdict is given.         *)
+(* total size) are outside the domain: Run marks them `amb` and no verdict   *)
+(* is given.                                                                  *)
 (***************************************************************************)
 EXTENDS Integers, Sequences, FiniteSets, SequencesExt, TLC
 
@@ -138,7 +143,7 @@ Run(s, q, mx) ==
              ELSE Run(rest, Fresh(<<Ev("R", msg, c)>>, LitClass(q.sy, q.ns), FALSE), mx)
     ELSE IF L.n > mx THEN                                  \* over-limit literal
         IF L.sync
-        THEN IF skip THEN Run(rest, Fresh(<<>>, q.pc, TRUE), mx)
+        THEN IF skip THEN Run(rest, Fresh(<<>>, q.pc, FALSE), mx)
              ELSE Run(rest, Fresh(<<Ev("B", <<>>, c)>>, "over-literal-sync", FALSE), mx)
         ELSE LET q2 == [q EXCEPT !.acc = <<>>, !.st = "skip",
                                  !.pc = IF skip THEN @ ELSE "over-literal-nonsync",
@@ -146,10 +151,10 @@ Run(s, q, mx) ==
              IN IF Size(rest) < L.n THEN [q2 EXCEPT !.left = s]
                 ELSE Run(TakeDrop(rest, L.n).post, q2, mx)
     ELSE                                                   \* literal within the limit
-        IF skip
-        THEN LET q2 == [q EXCEPT !.amb = @ \/ L.sync] IN
-             IF Size(rest) < L.n THEN [q2 EXCEPT !.left = s]
-             ELSE Run(TakeDrop(rest, L.n).post, q2, mx)
+        IF skip /\ L.sync THEN Run(rest, Fresh(<<>>, q.pc, FALSE), mx)
+        ELSE IF skip
+        THEN IF Size(rest) < L.n THEN [q EXCEPT !.left = s]
+             ELSE Run(TakeDrop(rest, L.n).post, q, mx)
         ELSE LET q2 == [q EXCEPT !.ev = IF L.sync THEN Append(@, Ev("C", <<>>, c)) ELSE @] IN
              IF Size(rest) < L.n THEN [q2 EXCEPT !.left = s]
              ELSE LET td == TakeDrop(rest, L.n) IN
